@@ -115,3 +115,6 @@ UNITS += [parse_argv_item_unit("C05"), is_action_value_list_unit("C05")]
 # every context manager restores its variable on every exit
 from contracts.ctxvars import standard_units as _ctx_units  # noqa: E402
 UNITS += _ctx_units("C05")
+
+from contracts.share import carried as _carried  # noqa: E402
+UNITS += _carried("C05")
